@@ -1,6 +1,6 @@
 """C01 All VM configurations compute the same hash."""
 import astq
-from rules import a64hsem, aes, argon, cgsize, driver, dsinit, jit, rv64, spec, sshash, vmcfg, jitcross, portable
+from rules import a64hsem, rvhsem, aes, argon, cgsize, driver, dsinit, jit, rv64, spec, sshash, vmcfg, jitcross, portable
 
 LEVEL = 'other'
 TECHNIQUE = 'exhaustive flag-to-class dispatch check, frozen-table check of every dataset-address composition site, per-engine v1/v2 gate enumeration, abstract interpretation of the hand-written dataset-read fragments, sibling agreement rules of C04 / C08 / C10 / C12'
@@ -40,5 +40,7 @@ def run(ctx, R):
     jit.rule_lw_sib(ctx, R, 'rvv', F)
     rv64.rule_rvv_rcp(ctx, R, F)
     a64hsem.rule_hsem(ctx, R)
+    rvhsem.rule_hsem(ctx, R)
+    rvhsem.rule_hsem(ctx, R, 'rvv')
     portable.rule_int(ctx, R, astq.Facts(ctx, 'K1'))
     driver.rule_bind_excl(ctx, R)
